@@ -72,6 +72,33 @@ fn check_value(fmt: Fmt, bits: u64, cfgs: &[usize], validate: bool, stats: &mut 
                     raw_detail(fmt, cfg.name, &int, &frac, exp, json!({"panic": msg})),
                 )
             })?;
+            // the same rendering with digit separators, read through filter iterators (a caller that strips
+            // `_` on the fly): every 8th value
+            if bits % 8 == 0 && got == bits {
+                let sep = |s: &[u8]| -> Vec<u8> {
+                    let mut o = Vec::with_capacity(s.len() * 2);
+                    for (i, &b) in s.iter().enumerate() {
+                        if i % 3 == 0 {
+                            o.push(b'_');
+                        }
+                        o.push(b);
+                    }
+                    o
+                };
+                let (si, sf) = (sep(&int), sep(&frac));
+                let g = match fmt {
+                    Fmt::F32 => cfg.parse_sep32,
+                    Fmt::F64 => cfg.parse_sep64,
+                };
+                let got2 = catch(|| g(&si, &sf, exp));
+                if got2 != Ok(bits) {
+                    return Err(Failure::violation(
+                        format!("{} rendering of {} ({}) read through filter iterators parsed back as {:?} in config {}", RENDERINGS[which], fmt.hex(bits), fmt.name(), got2.map(|b| fmt.hex(b)), cfg.name),
+                        format!("roundtrip-filter:{}:{}", fmt.name(), RENDERINGS[which]),
+                        raw_detail(fmt, cfg.name, &int, &frac, exp, json!({"x_bits": fmt.hex(bits), "rendering": RENDERINGS[which], "via": "filter iterators over '_'-separated digits"})),
+                    ));
+                }
+            }
             if got != bits {
                 return Err(Failure::violation(
                     format!("{} rendering of {} ({}) parsed back as {} in config {}", RENDERINGS[which], fmt.hex(bits), fmt.name(), fmt.hex(got), cfg.name),
